@@ -169,7 +169,7 @@ def gen_wf(rng, kind, n=None):
 			has_body = method not in (b'GET', b'HEAD', b'TRACE', b'CONNECT') or False
 		else:
 			code = rng.choice([200, 201, 404, 500, 302, 206, 418, 599, 100, 204, 304])
-			reason = rng.choice([b'OK', b'Not Found', b'Two Words Here', b'X', b"I'm a teapot"])
+			reason = rng.choice([b'OK', b'Not Found', b'Two Words Here', b'X', b"I'm a teapot", b'OK', b'Non-Authoritative Information', b''])  # reason-phrase = *( HTAB / SP / VCHAR / obs-text ): may be empty
 			line = b'HTTP/%d.%d %d %s' % (ver + (code, reason))
 			gt.update(status=code, reason=reason.decode())
 			has_body = True
